@@ -537,6 +537,10 @@ fn step(s: &mut Stream, vm: bool, opc: u64, arg: &Tok) -> ((u64, u64), Vec<u8>, 
 }
 
 fn exec(case: &[Tok]) -> Vec<Tok> {
+    // a retry loop that never ends (e.g. EAGAIN of an empty message queue treated like EINTR) must not stall the check
+    crate::fdscript::watched(|| exec_inner(case))
+}
+fn exec_inner(case: &[Tok]) -> Vec<Tok> {
     let kind = case[1].u();
     let msgq = (9..=12).contains(&kind);
     let content = if msgq { vec![] } else { case[2].bytes() };
